@@ -76,8 +76,21 @@ def rule_reserve_and_codec(chk):
     # --- continue_task
     cfg = ctx.cfg(ct)
     tparam = "task_id"
+
+    def from_param(e):
+        """the expression is the task id as given, or its decoded form"""
+        if isinstance(e, ast.Name) and e.id == tparam:
+            return True
+        return isinstance(e, ast.Call) and isinstance(e.func, ast.Attribute) and e.func.attr == "decode" and isinstance(e.func.value, ast.Name) and e.func.value.id == tparam
+    idnames = {tparam}
+    for n_ in iter_own_nodes(ct.node):
+        if isinstance(n_, ast.Assign) and len(n_.targets) == 1 and isinstance(n_.targets[0], ast.Name):
+            nm = n_.targets[0].id
+            vals_ = [v for v in assigned_values(ct, nm)]
+            if vals_ and all(v is not None and from_param(v) for v in vals_):
+                idnames.add(nm)
     splits = [(n, c) for n in cfg.live for c, m in calls_in_node(n) if isinstance(c.func, ast.Attribute) and c.func.attr in ("split", "rsplit", "partition", "rpartition")
-              and isinstance(c.func.value, ast.Name) and c.func.value.id == tparam]
+              and isinstance(c.func.value, ast.Name) and c.func.value.id in idnames]
     chk.need(splits, "continue_task no longer splits the task id")
     problems = []
     for n, c in splits:
@@ -86,7 +99,7 @@ def rule_reserve_and_codec(chk):
             problems.append("continue_task splits on %r, serialize_task_id joins with %r" % (lit, sep))
     # bytes are decoded first
     decs = [n for n in cfg.live for c, m in calls_in_node(n) if isinstance(c.func, ast.Attribute) and c.func.attr == "decode" and isinstance(c.func.value, ast.Name)
-            and c.func.value.id == tparam and isinstance(n.ast, ast.Assign) and isinstance(n.ast.targets[0], ast.Name) and n.ast.targets[0].id == tparam]
+            and c.func.value.id == tparam and isinstance(n.ast, ast.Assign) and isinstance(n.ast.targets[0], ast.Name) and n.ast.targets[0].id in idnames]
     okdec = False
     for d in decs:
         for t, lab in cfg.guards_of(d):
@@ -110,9 +123,11 @@ def rule_reserve_and_codec(chk):
     sn, sc = splits[0]
     if isinstance(sn.ast, ast.Assign) and isinstance(sn.ast.targets[0], ast.Tuple) and all(isinstance(e, ast.Name) for e in sn.ast.targets[0].elts):
         parts = [e.id for e in sn.ast.targets[0].elts]
+    from .. import exprs as X
+    a2 = X.inline(ct, c.args[2]) if len(c.args) >= 3 else None   # `level = TaskLevel.fromString(part)` may be a temporary
     oka = parts is not None and len(parts) == 2 and len(c.args) >= 3 and isinstance(c.args[1], ast.Name) and c.args[1].id == parts[0] \
-        and isinstance(c.args[2], ast.Call) and fs in ctx.targets(ct, c.args[2]) and len(c.args[2].args) == 1 and isinstance(c.args[2].args[0], ast.Name) \
-        and c.args[2].args[0].id == parts[1] and all(len(stores_to_name(ct, x)) == 1 for x in parts)
+        and isinstance(a2, ast.Call) and fs in ctx.targets(ct, a2) and len(a2.args) == 1 and isinstance(a2.args[0], ast.Name) \
+        and a2.args[0].id == parts[1] and all(len(stores_to_name(ct, x)) == 1 for x in parts)
     chk.req(oka, "C06.codec", "Action.continue_task:continues-at-the-decoded-uuid-and-level", chk.where(ct, c.lineno),
             good="Action(logger, <uuid part>, TaskLevel.fromString(<level part>), ...)",
             fail="the continued action is not built from exactly the uuid and level decoded from the id: %s" % unparse(c)[:90])
